@@ -37,12 +37,16 @@ def _same(B, tag, m1, m2, cs=1, cabs=1):
     B.eq(f"{tag}: scores", m2.scores(), m1.scores() * cs)
 
 
-def h_shift(B, cls="EOF", n=4, p=2, k=2, standardize=False, layout="2d"):
+def h_shift(B, cls="EOF", n=4, p=2, k=2, standardize=False, layout="2d", offset_scale=None):
     cplx = cls == "ComplexEOF"
     X, dim, fd = M.make_input(B, layout, n, p, cplx, {})
     fdims = [d for d in X.dims if d != "time"]
     shp = tuple(X.sizes[d] for d in fdims)
     c = xr.DataArray(B.array(shp, "c", cplx), dims=fdims, coords={d: X[d] for d in fdims})
+    if offset_scale:
+        # same symbolic generality (c is arbitrary), but the WITNESS offset is huge compared with the spread of the data
+        # (a pressure field in Pa: background 1e7 x the anomalies) - still far inside double precision
+        c = c * float(offset_scale)
     flags = {"standardize": standardize}
     if standardize:
         a = xr.DataArray(B.array(shp, "a", positive=True), dims=fdims, coords={d: X[d] for d in fdims})
@@ -170,6 +174,8 @@ def configs(tier):
     add("h_shift", "EOF|affine|standardize", standardize=True, p=3)
     add("h_shift", "EOF|shift|3d", layout="3d", p=4)
     add("h_shift", "EOF|shift|n3p3", n=3, p=3)
+    for key_, st in (("EOF|shift|witness offset 1e7 x spread", False), ("EOF|affine|standardize|witness offset 1e7 x spread", True)):
+        out.append({"key": key_, "fn": "h_shift", "params": {"standardize": st, "p": 3, "offset_scale": 1e7}, "options": {"float_rtol": 1e-5}})
     add("h_shift", "EOF|affine|standardize|3d", standardize=True, layout="3d", p=4)
     add("h_weights", "EOF|weights|standardize", flags={"standardize": True}, p=3)
     add("h_weights", "EOF|weights|3d", layout="3d", p=4)
